@@ -302,7 +302,8 @@ theorem goH_nonchar_some (n : Node) (r : List Node) (ft : Nat) (buf : Str) (h : 
   cases n <;> simp [goH] at h ⊢
 
 theorem dimOk_le {s : Int} (h : dimOk s = true) : s ≤ 1073741823 := by
-  simp [dimOk, maxDimen] at h; omega
+  unfold dimOk maxDimen at h
+  exact (of_decide_eq_true h).2
 
 theorem u32Ok_lt {n : Nat} (h : u32Ok n = true) : n < 4294967296 := by
   simp [u32Ok] at h; omega
